@@ -222,8 +222,9 @@ def run(ctx, res):
     res.inventory["allowlisted_call_sites"] = nallow
     res.inventory["bodies_interpreted"] = len([k for k in reach if k in visited])
     for k, rest in unvisited:
+        # coverage gap, not a proven panic: fail closed as "not decided" (checker error), never as a violation
         res.ob(False)
-        res.finding("census|%s" % k, "%s owns %d panic obligation(s) (%s) that no analysis covers and that are not allow-listed" % (k, len(rest), ", ".join("%s@%s" % (w.split("::")[-1], ln) for _, w, ln in rest[:4])))
+        res.errors.append("census: %s owns %d panic obligation(s) (%s) that no analysis covers and that are not allow-listed - not decided" % (k, len(rest), ", ".join("%s@%s" % (w.split("::")[-1], ln) for _, w, ln in rest[:4])))
     res.ob(not unvisited)
     res.floor("panic obligation sites", nob, 380 if facts.overflow_checks else 60)
     res.floor("bodies reachable from run", len(reach), 300)
